@@ -106,8 +106,10 @@ func runSemi(sc semiCase) semiObs {
 	var mu sync.Mutex
 	built := map[*core.BuildTarget]bool{}
 	taken := map[*core.BuildTarget]int{}
-	deadline := time.After(4 * time.Second)
-	quiet := 600 * time.Millisecond
+	deadline := time.After(60 * time.Second)
+	// liveness is judged generously: on a loaded machine goroutines can stall for seconds, and a late
+	// task is not a violation of the property
+	quiet := 10 * time.Second
 	if !willBuild {
 		quiet = 400 * time.Millisecond
 	}
